@@ -264,11 +264,14 @@ impl Format {
 
                 match prev_token {
                     Token::YearShort => {
-                        decomposed[0] =
-                            sub_str.parse::<i32>().map_err(|_| HifitimeError::Parse {
+                        decomposed[0] = sub_str
+                            .parse::<i32>()
+                            .ok()
+                            .and_then(|short_year| short_year.checked_add(2000))
+                            .ok_or(HifitimeError::Parse {
                                 source: ParsingError::ValueError,
                                 details: "could not parse year as i32",
-                            })? + 2000;
+                            })?;
                     }
                     Token::DayOfYear => {
                         // We must parse this as a floating point value.
